@@ -44,8 +44,8 @@ type Case struct {
 }
 
 var (
-	routePool  = []string{"/x", "/y/{id}", "/v1/x", "/{any}", "/v2/y/{id}", "/"}
-	domainSets = [][]string{{"a.com"}, {"{sub}.b.com"}, {"a.com", "{sub}.b.com"}, {"c.com", "a.com"}, {"{sub}.b.com", "{sub}.b.org"}, {"{ver}.b.com", "{ver}.b.org", "a.com"}}
+	routePool  = []string{"/x", "/y/{id}", "/v1/x", "/{any}", "/v2/y/{id}", "/", "/{ver:\\d+}/p/b", "/{o}/p/c"}
+	domainSets = [][]string{{"a.com"}, {"{sub}.b.com"}, {"a.com", "{sub}.b.com"}, {"c.com", "a.com"}, {"{sub}.b.com", "{sub}.b.org"}, {"{ver}.b.com", "{ver}.b.org", "a.com"}, {"{v}.b.com", "{v}.b.org"}, {"{-ver}.b.com", "{-ver}.b.org", "{v:\\w+}.b.net"}}
 	verSets    = [][]string{{"v1"}, {"v2"}, {"v1", "v2"}, {"v11", "v1"}}
 	names      = []string{"r1", "r2", "r3", "r4"}
 )
@@ -75,6 +75,16 @@ func genMatcher(t *rapid.T, depth int) MSpec {
 		}
 		return MSpec{Kind: "and", Subs: []MSpec{setter("s1"), {Kind: "or", Subs: []MSpec{
 			{Kind: "and", Subs: []MSpec{setter("s2"), genLeaf(t, 7)}}, genLeaf(t, 8)}}}}
+	}
+	if depth == 0 && rapid.IntRange(0, 9).Draw(t, "template2") == 0 {
+		// And(set n, Or(Hosts with a {n} domain, Y)): a Hosts that gives up after binding {n} must leave n as it was
+		name := rapid.SampledFrom([]string{"ver", "v"}).Draw(t, "t2name")
+		set := MSpec{Kind: "pathver", Args: rapid.SampledFrom(verSets).Draw(t, "t2V"), Param: name}
+		if rapid.Bool().Draw(t, "t2h") {
+			set.Kind = "headerver"
+		}
+		hosts := MSpec{Kind: "hosts", Args: rapid.SampledFrom(domainSets[5:]).Draw(t, "t2domains")}
+		return MSpec{Kind: "and", Subs: []MSpec{set, {Kind: "or", Subs: []MSpec{hosts, genLeaf(t, 9)}}}}
 	}
 	k := rapid.IntRange(0, 9).Draw(t, "mkind")
 	switch {
@@ -120,7 +130,7 @@ func gen(t *rapid.T) Case {
 	for i, n := 0, rapid.IntRange(1, 8).Draw(t, "nreqs"); i < n; i++ {
 		c.Reqs = append(c.Reqs, Rq{
 			Method: rapid.SampledFrom([]string{"GET", "GET", "POST", "OPTIONS"}).Draw(t, "m"),
-			Path:   rapid.SampledFrom([]string{"/v1/x", "/v2/y/7", "/x", "/v1/v1/x", "/y/7", "/v1/zz", "/v11/x", "/v1", "/v2/v1/x", "/", "/v1/"}).Draw(t, "path"),
+			Path:   rapid.SampledFrom([]string{"/v1/x", "/v2/y/7", "/x", "/v1/v1/x", "/y/7", "/v1/zz", "/v11/x", "/v1", "/v2/v1/x", "/", "/v1/", "/7/p/c", "/v1/7/p/c", "/v1/7/p/b"}).Draw(t, "path"),
 			Host:   rapid.SampledFrom([]string{"a.com", "q.b.com", "c.com", "A.COM:80", "d.com", "", "q.b.net", "q.b.org", "x.b.com.cn"}).Draw(t, "host"),
 			Accept: rapid.SampledFrom([]string{"a/b; version=v1", "", "a/b; version=v9", "a/b; version=v2", "junk;;"}).Draw(t, "accept"),
 		})
@@ -380,10 +390,11 @@ func check(c Case, st *rig.Stats) error {
 			// that router alone, serving the request the matcher produced
 			alone := rig.Serve(win.r, rig.Req{Method: q.Method, Path: ws.path, Host: q.Host, Header: hdr})
 			wantParams := map[string]string{}
-			for k, v := range alone.Params {
+			// a route parameter with the name of a matcher parameter is written later and wins
+			for k, v := range ws.params {
 				wantParams[k] = v
 			}
-			for k, v := range ws.params {
+			for k, v := range alone.Params {
 				wantParams[k] = v
 			}
 			switch {
